@@ -119,6 +119,17 @@ def _real_coords(name, args):
         except (IndexError, TypeError):
             return ["err2"]
         return [",".join(C.frs(Fraction(float(v))) for v in r) if len(r) else "-"]
+    if name == "gridLines":
+        region = tuple(float(C.tofrac(t)) for t in args[:4])
+        shape = None if args[4] == "none" else tuple(int(t) for t in args[4].split("x"))
+        sp = None if args[5] == "none" else ([] if args[5] == "-" else [float(C.tofrac(t)) for t in args[5].split(",")])
+        try:
+            r = co.grid_coordinates(region, shape=shape, spacing=sp, adjust=args[6], pixel_register=args[7] == "true", meshgrid=False)
+        except ValueError:
+            return ["err"]
+        except (IndexError, TypeError):
+            return ["err2"]
+        return [",".join(C.frs(Fraction(float(v))) for v in c) if len(c) else "-" for c in r]
     if name == "shapeToSpacing":
         w, e, s, n = (float(C.tofrac(t)) for t in args[:4])
         try:
